@@ -1049,6 +1049,10 @@ func (x *Exec) evalCall(env *Env, e *ECall) SV {
 		// decoded_has(src, "Field") / decoded_real(src, "Field"): what utils.DecodeToStruct found in src for that field
 		src := arg(0)
 		lit, ok := e.Args[1].(*EStr)
+		if ok && src.T.Sort != SIface && src.Typ != nil {
+			// a value of a concrete type is handed to DecodeToStruct boxed in an interface value
+			src = SV{T: x.TI.Box(src.Typ, src.T), Typ: nil}
+		}
 		if !ok || src.T.Sort != SIface {
 			specFail("%s(src, \"Field\"): src must be an interface value and the field a string literal", e.Fn)
 		}
